@@ -31,6 +31,7 @@ type EntrySpec struct {
 	Covers          []string                  `json:"covers,omitempty"` // cover goals that must be met
 	Note            string                    `json:"note,omitempty"`
 	Redirects       map[string]string         `json:"redirects,omitempty"` // additional redirects for this entry only
+	Validate        map[string]int            `json:"validate,omitempty"`  // per tier: number of explored-path models replayed natively and concretely (default 3 / 8)
 }
 
 type PropSpec struct {
@@ -42,6 +43,53 @@ type PropSpec struct {
 	NeedsShim   bool              `json:"needs_shim,omitempty"`
 	Redirects   map[string]string `json:"redirects,omitempty"` // callee full name -> "pkgpath.Func" of the model
 	InitAllow   []string          `json:"init_allow,omitempty"`
+	// Mirrors: functions of the tree whose call sequence a harness reproduces by hand
+	// (e.g. a constructor that cannot be executed because it opens sockets). The static
+	// calls listed must occur in the function, in this order; otherwise the harness no
+	// longer mirrors the code and the run is inconclusive. Callees that do not exist
+	// anywhere in the current tree are skipped (the harness skips them as well).
+	Mirrors []MirrorSpec `json:"mirrors,omitempty"`
+}
+
+type MirrorSpec struct {
+	Fn    string   `json:"fn"`
+	Calls []string `json:"calls_in_order"`
+}
+
+// checkMirror returns "" if fn contains the listed static calls in order.
+func checkMirror(all map[string]*ssa.Function, m MirrorSpec) string {
+	fn := all[m.Fn]
+	if fn == nil {
+		return fmt.Sprintf("mirrored function %s not found in the current tree", m.Fn)
+	}
+	var seq []string
+	for _, b := range fn.DomPreorder() {
+		for _, ins := range b.Instrs {
+			if c, ok := ins.(ssa.CallInstruction); ok {
+				if callee := c.Common().StaticCallee(); callee != nil {
+					seq = append(seq, callee.String())
+				}
+			}
+		}
+	}
+	pos := 0
+	for _, want := range m.Calls {
+		if all[want] == nil {
+			continue
+		}
+		found := false
+		for pos < len(seq) {
+			pos++
+			if seq[pos-1] == want {
+				found = true
+				break
+			}
+		}
+		if !found {
+			return fmt.Sprintf("%s no longer calls %s at the point the harness mirrors (start-up sequence changed)", m.Fn, want)
+		}
+	}
+	return ""
 }
 
 type KnownFinding struct {
@@ -380,6 +428,18 @@ func cmdCheck(args []string) {
 	known := loadKnown()
 	redirects := map[string]*ssa.Function{}
 	var allFuncs map[string]*ssa.Function
+	if len(spec.Mirrors) > 0 {
+		all := map[string]*ssa.Function{}
+		for f := range ssautilAllFunctions(prog) {
+			all[f.String()] = f
+		}
+		for _, m := range spec.Mirrors {
+			if msg := checkMirror(all, m); msg != "" {
+				fmt.Println("INCONCLUSIVE:", msg)
+				evidenceInconclusive = append(evidenceInconclusive, msg)
+			}
+		}
+	}
 	if len(spec.Redirects) > 0 {
 		all := map[string]*ssa.Function{}
 		for f := range ssautilAllFunctions(prog) {
@@ -474,6 +534,9 @@ func cmdCheck(args []string) {
 		if *tier == "thorough" {
 			cfg.SampleModels = 8
 			cfg.SolverTimeoutMS = 120000
+		}
+		if v, ok := e.Validate[*tier]; ok {
+			cfg.SampleModels = v
 		}
 		cfg.Seed = seed
 		if e.TimeoutS > 0 {
